@@ -177,3 +177,38 @@ fn d_v9_zero_size_template() {
     core::mem::forget(r);
     core::mem::forget(p);
 }
+
+/// Exact model of the kernel for FieldDataType::Unknown with parse_unknown_fields OFF
+/// (k::k_unknown_off shows the real kernel fails for every length and input).
+#[cfg(feature = "off")]
+pub fn unknown_off_kernel_model<'a>(remaining: &'a [u8], ty: FieldDataType, len: u16) -> nom::IResult<&'a [u8], FieldValue> {
+    assert!(ty == FieldDataType::Unknown);
+    Err(nom::Err::Error(nom::error::Error::new(remaining, nom::error::ErrorKind::Fail)))
+}
+
+/// C17: with the feature off, a V9 data flowset governed by a template containing a field
+/// type the library does not know yields no decoded record.
+#[cfg(feature = "off")]
+#[kani::proof]
+#[kani::stub(core::fmt::write, no_fmt)]
+#[kani::stub(netflow_parser::variable_versions::data_number::FieldValue::from_field_type, unknown_off_kernel_model)]
+fn d_v9_unknown_field_off() {
+    let n: u16 = kani::any();
+    kani::assume(V9Field::from(n) == V9Field::Unknown);
+    let l: u16 = kani::any();
+    kani::assume(l >= 1 && l <= 3);
+    let mut p = V9Parser::default();
+    p.templates.insert(256, Template {
+        template_id: 256,
+        field_count: 1,
+        fields: vec![TemplateField { field_type_number: n, field_type: V9Field::from(n), field_length: l }],
+    });
+    let buf: [u8; 6] = kani::any();
+    let r = Data::parse(&buf, &mut p, 256);
+    if let Ok((rem, d)) = &r {
+        assert!(d.fields.len() == 0);
+    }
+    kani::cover!(r.is_ok());
+    core::mem::forget(r);
+    core::mem::forget(p);
+}
